@@ -418,6 +418,14 @@ PROPS['C16'] = dict(
           '(C16_poll_reads_arrived_packet); and one exchange end to end: a PUBACK that has arrived completes its QoS 1 publish in '
           'ONE poll() - read, decoded, the retained PUBLISH released with every other retained packet untouched, the quota slot '
           'returned, progress reported, still nothing to write (C16_poll_completes_puback, computed instance C16_puback_example). '
+          'Histories of any length: `Idle` (healthy connection, no keep-alive, nothing queued, nothing half read, nothing in '
+          'flight between client and broker) is re-established by a complete QoS 1, QoS 2, SUBSCRIBE or UNSUBSCRIBE exchange with '
+          'the send window and the arena capacity unchanged; connect() of a client without keep-alive and with nothing in flight '
+          'establishes it (first connection or resumed session, every configuration in which the CONNECT fits); an idle session '
+          'accepts every valid request that fits - hence connect followed by ANY list of acknowledged requests, each with its '
+          'poll() (two for QoS 2), completes every request and ends idle (C16_connect_then_history_completes, '
+          'C16_history_completes_static, C16_exchange_idle_to_idle; hypotheses proved satisfiable). The conclusion of that theorem '
+          'is also read off the implementation (suite py_hist, monitor mon_hist). '
           'Quiescence of arbitrary backlogs is checked: every generated '
           'history (faults, cancellations, reconnects, small arenas, Receive Maximum pressure), followed by the benign continuation - '
           'transport healed, broker answering every packet including the CONNECT (session present iff no clean start), reconnect, 40 '
